@@ -328,11 +328,11 @@ pub fn is_servings_key(k: &str) -> bool {
 pub fn std_meta(i: u8) -> (&'static str, &'static str, YamlM) {
     match i % 12 {
         10 => ("serves", "4", YamlM::Int(4)),
-        11 => ("yield", "6|12", YamlM::List(vec![YamlM::Int(6), YamlM::Int(12)])),
+        11 => ("yield", "6 | 12", YamlM::List(vec![YamlM::Int(6), YamlM::Int(12)])),
         8 => ("servings", "6|2|4", YamlM::List(vec![YamlM::Int(6), YamlM::Int(2), YamlM::Int(4)])),
-        9 => ("servings", "12 small|3 big", YamlM::List(vec![YamlM::Str("12 small".into()), YamlM::Str("3 big".into())])),
+        9 => ("servings", "12 small | 3 big", YamlM::List(vec![YamlM::Str("12 small".into()), YamlM::Str("3 big".into())])),
         0 => ("servings", "4", YamlM::Int(4)),
-        1 => ("servings", "2|4|8", YamlM::List(vec![YamlM::Int(2), YamlM::Int(4), YamlM::Int(8)])),
+        1 => ("servings", "2| 4 |8", YamlM::List(vec![YamlM::Int(2), YamlM::Int(4), YamlM::Int(8)])),
         2 => ("time", "1h 30min", YamlM::Str("1h 30min".into())),
         3 => ("tags", "quick, vegan", YamlM::List(vec![YamlM::Str("quick".into()), YamlM::Str("vegan".into())])),
         4 => ("author", "Mom <https://mom.example/r>", YamlM::Str("Mom <https://mom.example/r>".into())),
